@@ -260,6 +260,64 @@ func execQueueConc(c *child.Ctx, k queueCase, cj []byte) {
 	}
 }
 
+// execQueueStress runs adders and snapshot readers in tight loops (no yields, many
+// operations): every snapshot must be within capacity and strictly increasing per
+// adder (arrival order), and the run must finish - a lock-order problem shows up
+// as a logical deadlock.
+func execQueueStress(c *child.Ctx, k queueCase, cj []byte) {
+	if k.Procs > 0 {
+		runtime.GOMAXPROCS(k.Procs)
+	}
+	q := circularQueue.NewCircularQueue(k.Cap)
+	var wg sync.WaitGroup
+	var bad atomic.Value
+	for a := 0; a < k.Adders; a++ {
+		wg.Add(1)
+		go func(a int) {
+			defer wg.Done()
+			for i := 0; i < k.OpsEach; i++ {
+				q.Add(handler.Message{MessageType: (a+1)*10000000 + i + 1})
+				if i%64 == 0 {
+					tick()
+				}
+			}
+		}(a)
+	}
+	for rd := 0; rd < k.Readers; rd++ {
+		wg.Add(1)
+		go func() {
+			defer wg.Done()
+			for i := 0; i < k.OpsEach; i++ {
+				got := q.GetMessages()
+				if i%64 == 0 {
+					tick()
+				}
+				if len(got) > k.Cap {
+					bad.Store(fmt.Sprintf("a snapshot holds %d messages, capacity %d", len(got), k.Cap))
+					return
+				}
+				last := map[int]int{}
+				for _, m := range got {
+					ad := m.MessageType / 10000000
+					if prev, ok := last[ad]; ok && m.MessageType <= prev {
+						bad.Store(fmt.Sprintf("a snapshot is not in arrival order: %v", ids(got)))
+						return
+					}
+					last[ad] = m.MessageType
+				}
+			}
+		}()
+	}
+	done := make(chan struct{})
+	go func() { wg.Wait(); close(done) }()
+	waitOrHang(done, caseWatchdog, "queue adders and snapshot readers in tight loops did not finish")
+	if v := bad.Load(); v != nil {
+		c.Violate("snapshot-wrong", v.(string), cj)
+		return
+	}
+	c.Count("stress_operations", int64((k.Adders+k.Readers)*k.OpsEach))
+}
+
 func monC18(c *child.Ctx, replay json.RawMessage) {
 	if replay != nil {
 		var k queueCase
@@ -270,6 +328,10 @@ func monC18(c *child.Ctx, replay json.RawMessage) {
 			execQueueSeq(c, k, replay)
 		case "long":
 			execQueueLong(c, k, replay)
+		case "stress":
+			for i := 0; i < 20 && c.NViolations() == 0; i++ {
+				execQueueStress(c, k, replay)
+			}
 		default:
 			for i := 0; i < 300 && c.NViolations() == 0; i++ {
 				k.Seed += uint64(i)
@@ -327,7 +389,15 @@ func monC18(c *child.Ctx, replay json.RawMessage) {
 		execQueueLong(c, k, cj)
 		c.Eval(ref.Hash64(cj), true)
 	}
-	// (3) concurrent histories
+	// (3) tight-loop stress
+	ns := c.Share(c.Pick(24, 800))
+	for i := 0; i < ns; i++ {
+		k := queueCase{Kind: "stress", Cap: []int{1, 3, 20}[r.Intn(3)], Adders: r.Range(1, 2), Readers: r.Range(1, 3), OpsEach: 20000, Procs: []int{4, 16}[r.Intn(2)]}
+		cj := c.BeginV(k)
+		execQueueStress(c, k, cj)
+		c.Eval(ref.Hash64(cj, []byte{byte(i)}), true)
+	}
+	// (4) concurrent histories
 	n := c.Share(c.Pick(6000, 200000))
 	for i := 0; i < n; i++ {
 		k := queueCase{Kind: "conc", Cap: []int{1, 2, 3, 8}[r.Intn(4)], Adders: r.Range(1, 3), Readers: r.Range(1, 3), OpsEach: r.Range(10, 30),
